@@ -56,7 +56,9 @@ def hostile_texts(rng, tier):
         out.append(('mutated', bytes(t)))
     # a comment directly before every item form, followed by every kind of continuation (annotation hand-over paths)
     items = [b'i = 1', b'il = 5', b'il += 6', b'il = {1, 2}', b'il = {1, 2,}', b'il = {}', b'sl = "x"', b'sl += y', b'sec { a = 1 }', b'sec { l = z }',
-             b'sec { l += z }', b't "x" { l = q }', b'fn(a)', b'kv { k = v }', b'm { in "y" { s = w } }', b'b = on', b's = "v"']
+             b'sec { l += z }', b't "x" { l = q }', b'fn(a)', b'kv { k = v }', b'm { in "y" { s = w } }', b'b = on', b's = "v"',
+             # undeclared items (skipped under CFGF_IGNORE_UNKNOWN, rejected otherwise)
+             b'unk = 1', b'unk = {1, 2}', b'unk { a = 1 }', b'unk t { }', b'unk(a, b)', b'unk += 3', b'sec { unk = 1 }']
     for it in items:
         for cm in (b'/* c */ ', b'# c\n', b'// c\n'):
             for tail in (b'', b'\n/* d */ i = 2\n', b'\n}', b'\nbogus', b'\n# e\n', b' /* f */'):
